@@ -351,6 +351,87 @@ def run_race(spec, history, e1, e2, report):
     return {'plans': out, 'fired': fired, 'state': observe_base(world, spec, base)}
 
 
+class HookStr(str):
+    """local_dc as a str subclass: behaves like the string, but a comparison made while the hook is armed first lets another
+    thread run one complete membership event (a reflected comparison with a subclass operand reaches __ne__/__eq__ here)."""
+    hook = None
+    countdown = 0
+
+    def _fire(self):
+        h = HookStr.hook
+        if h is not None:
+            if HookStr.countdown > 0:
+                HookStr.countdown -= 1
+            else:
+                HookStr.hook = None
+                h()
+
+    def __eq__(self, other):
+        self._fire()
+        return str.__eq__(self, other)
+
+    def __ne__(self, other):
+        self._fire()
+        return str.__ne__(self, other)
+
+    __hash__ = str.__hash__
+
+
+def run_plan_during_event(spec, history, ev, fire_at, report):
+    """DC-aware policy with explicit local_dc: history sequentially, then a plan is drained; after its local hosts were taken, at
+    the fire_at-th datacenter comparison of the remote-DC selection another thread delivers `ev` completely."""
+    import cassandra.policies as P
+    world = world_of(spec)
+    base = P.DCAwareRoundRobinPolicy(HookStr(localname(spec['local'])), spec['used'])
+    live = set()
+    for e in history:
+        if apply_event(world, base, e):
+            live = members_step(live, e)
+    n = len(world.hosts)
+    dist0 = dict((i, base.distance(world.hosts[i])) for i in range(n))
+    dcs0 = [world.dc(i) for i in range(n)]
+    live0 = set(live)
+    nlocal = len(base._dc_live_hosts.get(base.local_dc, ()))
+    gen = base.make_query_plan(None, None)
+    plan, exc, fired = [], None, {'v': False}
+    try:
+        for _ in range(nlocal):
+            plan.append(world.idx[next(gen)])
+
+        def other_thread():
+            fired['v'] = True
+            if apply_event(world, base, ev):
+                live.clear()
+                live.update(members_step(live0, ev))
+        HookStr.hook, HookStr.countdown = other_thread, fire_at
+        for h in gen:
+            plan.append(world.idx[h])
+    except Exception as e:     # noqa: any exception escaping a plan is a failure of the plan
+        exc = '%s: %s' % (type(e).__name__, e)
+    finally:
+        HookStr.hook = None
+    if not fired['v']:
+        # no remote-DC comparison happened (no DC entries at all): plain sequential delivery
+        if apply_event(world, base, ev):
+            live.clear()
+            live.update(members_step(live0, ev))
+    dist2 = dict((i, base.distance(world.hosts[i])) for i in range(n))
+    if exc is not None:
+        report('dca.plan-during-event.exception', 'plan %r then %s while %r was delivered by another thread' % (plan, exc, ev), 'C21_plan_during_events')
+    else:
+        if len(set(plan)) != len(plan) and ev[0] != 'L':
+            report('dca.plan-during-event.duplicate', 'plan %r repeats a host' % (plan,), 'C21_plan_during_events')
+        ok = set(h for h in live0 if dist0[h] != IGNORED) | set(h for h in live if dist2[h] != IGNORED)
+        if set(plan) - ok:
+            report('dca.plan-during-event.not-live-host-yielded', 'plan %r contains %r, neither live before nor after %r' % (plan, sorted(set(plan) - ok), ev),
+                   'C21_plan_during_events')
+        must = set(h for h in live0 & live if dist0[h] != IGNORED and dist0[h] == dist2[h] and dcs0[h] == world.dc(h))
+        if must - set(plan):
+            report('dca.plan-during-event.live-host-missing', 'plan %r lacks %r, live and at the same distance before and after %r'
+                   % (plan, sorted(must - set(plan)), ev), 'C21_plan_during_events')
+    return {'plan': plan, 'exception': exc, 'fired': fired['v']}
+
+
 # ---------------------------------------------------------------------------------------- C22
 def run_token_aware(case, fixed_shuffle=True):
     """case = {'dcs', 'child': spec, 'history', 'replicas': [...], 'up': [None|True|False per host], 'shuffle': perm or None,
